@@ -68,7 +68,8 @@ def stf_vonKarman(r, L0):
             * (1 - 2 * np.pi ** (5. / 6.) * ((r) / L0) ** (5. / 6.)
                / scipy.special.gamma(5. / 6.)
                * scipy.special.kv(5. / 6., (2 * np.pi * r) / L0)))
-    return D_vk
+    # at r = 0 the closed form is 0 * infinity (nan); the structure function there, and its limit, is 0
+    return np.where(np.equal(r, 0), 0., D_vk)[()]
 
 
 def gkl_radii(ri, nr):
